@@ -464,3 +464,31 @@ class progressbar_rows:
 
 progressbar_pack = _inherited_pack("ProgressBar", PROGRESSBAR, (Sizing.FLOW,), progressbar_rows, lambda s: True)
 progressbar_sizing = _inherited_sizing("ProgressBar", PROGRESSBAR, (Sizing.FLOW,))
+
+
+# ============================================================================================ sizes of a mode the leaf does not report
+def _wrong_mode(target, shape, sizes, wf=lambda s: True):
+    """`sizing()` tells the truth, other direction: a size of a mode the widget does not report is refused (ValueError
+    from unpacking the size tuple) before anything is drawn -- "the widget should fail when used in that mode"."""
+    @contract(target, property="C01", alias="wrong-mode", replayable=False)
+    class _w:
+        self_shape = shape
+        params = dict(size=sizes, focus=Bool)
+        raises = (ValueError,)
+
+        def requires(s, a):
+            return both(wf(s), size_ok(a.size))
+
+        def ensures(old, s, a, r):
+            yield "never-answers", False
+
+        def on_raise(old, s, a, exc):
+            yield "nothing-drawn", len([ev for ev in cur().trace if ev[0] in ("call", "combine", "join")]) == 0
+
+    _w.__name__ = "wrong_mode_" + target.split(":")[1].replace(".", "_")
+    return _w
+
+
+_wrong_mode(DV + "Divider.render", DIVIDER, Union(Tup(), Tup(Int, Int)), divider_wf)
+_wrong_mode(DV + "Divider.rows", DIVIDER, Union(Tup(), Tup(Int, Int)), divider_wf)
+_wrong_mode(SF + "SolidFill.render", SOLIDFILL, Union(Tup(), Tup(Int)))
